@@ -17,3 +17,8 @@ def bounded(ctx):
     c12.histories(ctx)
     c12.modes(ctx)
     c12.reuse(ctx)
+
+
+# T1 (PyVC): parseString (bytes and text input) and parseStyle put the library-wide error mode back on EVERY exit - normal return and
+# every exception class a decoder, fetcher or raising parser can throw - proved on all paths of the real functions.
+T1 = [('contracts.parse', None)]
